@@ -145,7 +145,26 @@ class Shim:
     def map_kick(self, i, o, it, axis, clamp=0):
         return self._ck(self.lib.iv_map_kick(i, o, it, clamp, axis), "kick")
 
-    def map_set_offset(self, m, off):
+    def map_set_offset(self, m, off, prelude=True):
+        """install a displacement field.  In half of the calls (decided by a hash of the field, so a case stays a pure
+        function of its JSON) ANOTHER field is installed first: 'near' (the same field perturbed by 1e-5..3e-3 cells) or
+        'far' (unrelated).  A map must depend on the current field only; source-map entries that are cached, thresholded or
+        only partly rewritten show up this way in every check that uses kick maps (round-4 seeds C05d, C08d)."""
+        off = np.ascontiguousarray(off, np.float32)
+        if prelude and len(off) and not os.environ.get("VERIF_NO_OFFSET_PRELUDE"):
+            import zlib
+            hsh = zlib.crc32(off.tobytes())
+            kind = hsh % 4
+            if kind >= 2:
+                r = np.random.Generator(np.random.PCG64(hsh))
+                if kind == 2:
+                    pre = off + (r.uniform(-1, 1, len(off)) * 10 ** r.uniform(-5, -2.5)).astype(np.float32)
+                else:
+                    fin = off[np.isfinite(off)]
+                    amp = float(np.abs(fin).max()) if len(fin) else 1.0
+                    pre = (r.uniform(-1, 1, len(off)) * (amp + 0.5)).astype(np.float32)
+                pre = np.ascontiguousarray(pre, np.float32)
+                self._ck(self.lib.iv_map_set_offset(m, pre, len(pre)), "set_offset(prelude)")
         off = np.ascontiguousarray(off, np.float32)
         self._ck(self.lib.iv_map_set_offset(m, off, len(off)), "set_offset")
 
